@@ -11,7 +11,7 @@ set_option linter.unusedVariables false
 namespace Frugal
 
 def DtSound (dt : Ty → Bytes → Val → Outcome (Val × Bytes)) : Prop :=
-  ∀ t b dest v r, dt t b dest = .ok (v, r) → ∃ tv, wfL tv = true ∧ tv.tag = t.wire ∧ b = ser tv ++ r
+  ∀ t b dest v r, dt t b dest = .ok (v, r) → ∃ tv, wf tv = true ∧ tv.tag = t.wire ∧ b = ser tv ++ r
 
 theorem wire_lt128 (t : Ty) : t.wire < 128 := by
   unfold Ty.wire
@@ -22,7 +22,7 @@ variable {P : Params} (S : Schema)
 
 theorem decodeSlot_sound (dt : Ty → Bytes → Val → Outcome (Val × Bytes)) (hdt : DtSound dt) (g : Bool)
     (t : Ty) (b : Bytes) (slot v : Val) (r : Bytes) (h : decodeSlot P S dt g t b slot = .ok (v, r)) :
-    ∃ tv, wfL tv = true ∧ tv.tag = t.wire ∧ b = ser tv ++ r := by
+    ∃ tv, wf tv = true ∧ tv.tag = t.wire ∧ b = ser tv ++ r := by
   unfold decodeSlot at h
   simp only at h
   split at h
@@ -45,9 +45,9 @@ theorem decodeSlot_sound (dt : Ty → Bytes → Val → Outcome (Val × Bytes)) 
     · cases h
 
 theorem listLoop_sound (de : Bytes → Outcome (Val × Bytes)) (w : Nat)
-    (hde : ∀ bb v r, de bb = .ok (v, r) → ∃ tv, wfL tv = true ∧ tv.tag = w ∧ bb = ser tv ++ r) :
+    (hde : ∀ bb v r, de bb = .ok (v, r) → ∃ tv, wf tv = true ∧ tv.tag = w ∧ bb = ser tv ++ r) :
     ∀ (n : Nat) (b : Bytes) (vs : List Val) (r : Bytes), listLoop de n b = .ok (vs, r) →
-      ∃ xs, xs.length = n ∧ wfLList w xs = true ∧ b = serList xs ++ r
+      ∃ xs, xs.length = n ∧ wfList w xs = true ∧ b = serList xs ++ r
   | 0, b, vs, r, h => by
     simp only [listLoop, Outcome.ok.injEq, Prod.mk.injEq] at h
     obtain ⟨_, rfl⟩ := h
@@ -62,17 +62,17 @@ theorem listLoop_sound (de : Bytes → Outcome (Val × Bytes)) (w : Nat)
         obtain ⟨_, rfl⟩ := h
         obtain ⟨tv, w1, w2, w3⟩ := hde _ _ _ hd
         obtain ⟨xs, x1, x2, x3⟩ := listLoop_sound de w hde n r0 vs0 _ hl
-        exact ⟨tv :: xs, by simp [x1], by simp [wfLList, w1, w2, x2], by rw [w3, x3]; simp [serList]⟩
+        exact ⟨tv :: xs, by simp [x1], by simp [wfList, w1, w2, x2], by rw [w3, x3]; simp [serList]⟩
       · cases h
       · cases h
     · cases h
     · cases h
 
 theorem mapLoop_sound (kt : Ty) (dk dv : Bytes → Outcome (Val × Bytes)) (wk wv : Nat)
-    (hdk : ∀ bb v r, dk bb = .ok (v, r) → ∃ tv, wfL tv = true ∧ tv.tag = wk ∧ bb = ser tv ++ r)
-    (hdv : ∀ bb v r, dv bb = .ok (v, r) → ∃ tv, wfL tv = true ∧ tv.tag = wv ∧ bb = ser tv ++ r) :
+    (hdk : ∀ bb v r, dk bb = .ok (v, r) → ∃ tv, wf tv = true ∧ tv.tag = wk ∧ bb = ser tv ++ r)
+    (hdv : ∀ bb v r, dv bb = .ok (v, r) → ∃ tv, wf tv = true ∧ tv.tag = wv ∧ bb = ser tv ++ r) :
     ∀ (n : Nat) (b : Bytes) (acc es : List (Val × Val)) (r : Bytes), mapLoop kt dk dv n b acc = .ok (es, r) →
-      ∃ xs, xs.length = n ∧ wfLEntries wk wv xs = true ∧ b = serEntries xs ++ r
+      ∃ xs, xs.length = n ∧ wfEntries wk wv xs = true ∧ b = serEntries xs ++ r
   | 0, b, acc, es, r, h => by
     simp only [mapLoop, Outcome.ok.injEq, Prod.mk.injEq] at h
     obtain ⟨_, rfl⟩ := h
@@ -86,7 +86,7 @@ theorem mapLoop_sound (kt : Ty) (dk dv : Bytes → Outcome (Val × Bytes)) (wk w
         obtain ⟨tk, a1, a2, a3⟩ := hdk _ _ _ hk
         obtain ⟨tv, w1, w2, w3⟩ := hdv _ _ _ hv
         obtain ⟨xs, x1, x2, x3⟩ := mapLoop_sound kt dk dv wk wv hdk hdv n r1 _ es r h
-        exact ⟨(tk, tv) :: xs, by simp [x1], by simp [wfLEntries, a1, a2, w1, w2, x2],
+        exact ⟨(tk, tv) :: xs, by simp [x1], by simp [wfEntries, a1, a2, w1, w2, x2],
           by rw [a3, w3, x3]; simp [serEntries]⟩
       · cases h
       · cases h
@@ -99,7 +99,7 @@ include hP hS
 theorem decodeField_sound (total : Nat) (dt : Ty → Bytes → Val → Outcome (Val × Bytes)) (hdt : DtSound dt)
     (f : Field) (hf : f.ok = true) (b : Bytes) (slot v : Val) (r : Bytes)
     (h : decodeField P S total dt f b slot = .ok (v, r)) :
-    ∃ tv, wfL tv = true ∧ tv.tag = f.ty.wire ∧ b = ser tv ++ r := by
+    ∃ tv, wf tv = true ∧ tv.tag = f.ty.wire ∧ b = ser tv ++ r := by
   unfold decodeField at h
   split at h
   · rename_i hnc
@@ -109,7 +109,7 @@ theorem decodeField_sound (total : Nat) (dt : Ty → Bytes → Val → Outcome (
       simp only [Outcome.ok.injEq, Prod.mk.injEq] at h
       obtain ⟨_, rfl⟩ := h
       obtain ⟨s, hs, e⟩ := decodeStr_sound _ _ _ _ _ _ hd
-      refine ⟨.str s, by simp [wfL, hs], ?_, e⟩
+      refine ⟨.str s, by simp [wf, hs], ?_, e⟩
       simp only [Field.ok, Bool.and_eq_true, Bool.or_eq_true, Bool.not_eq_true', beq_iff_eq] at hf
       rcases hf.1.2 with h' | h'
       · rw [hnc.2] at h'; cases h'
@@ -122,7 +122,7 @@ theorem fieldLoop_sound (sd : SDesc) (hsd : ∀ f ∈ sd.fields, f.ok = true) (t
     (dt : Ty → Bytes → Val → Outcome (Val × Bytes)) (hdt : DtSound dt) :
     ∀ (cnt : Nat) (b : Bytes) (st st' : LoopSt) (r : Bytes),
       fieldLoop P S sd total dt cnt b st = .ok (st', r) →
-      ∃ fs, wfLFields fs = true ∧ b = serFields fs ++ [0] ++ r
+      ∃ fs, wfFields fs = true ∧ b = serFields fs ++ [0] ++ r
   | 0, b, st, st', r, h => by simp [fieldLoop] at h
   | cnt + 1, b, st, st', r, h => by
     simp only [fieldLoop] at h
@@ -140,12 +140,12 @@ theorem fieldLoop_sound (sd : SDesc) (hsd : ∀ f ∈ sd.fields, f.ok = true) (t
         · cases h
         · rename_i fid r1 hr16
           obtain ⟨e16, hfid⟩ := rd16_inv hr16
-          have fin : ∀ (tv : TVal) (rest : Bytes) (fs : List (Nat × TVal)), wfL tv = true →
-              tv.tag = tp.toNat → r1 = ser tv ++ rest → wfLFields fs = true →
+          have fin : ∀ (tv : TVal) (rest : Bytes) (fs : List (Nat × TVal)), wf tv = true →
+              tv.tag = tp.toNat → r1 = ser tv ++ rest → wfFields fs = true →
               rest = serFields fs ++ [0] ++ r →
-              ∃ fs', wfLFields fs' = true ∧ tp :: r0 = serFields fs' ++ [0] ++ r := by
+              ∃ fs', wfFields fs' = true ∧ tp :: r0 = serFields fs' ++ [0] ++ r := by
             intro tv rest fs w1 w2 w3 f1 f2
-            refine ⟨(fid, tv) :: fs, by simp [wfLFields, hfid, w1, f1], ?_⟩
+            refine ⟨(fid, tv) :: fs, by simp [wfFields, hfid, w1, f1], ?_⟩
             have hft : u8 tv.tag = tp := by rw [w2]; exact u8_toNat_self tp
             rw [e16, w3, f2]
             simp [serFields, hft]
@@ -191,7 +191,7 @@ theorem fieldLoop_sound (sd : SDesc) (hsd : ∀ f ∈ sd.fields, f.ok = true) (t
 
 
 def StSound (ds : Nat → Bytes → Val → Outcome (Val × Bytes)) : Prop :=
-  ∀ sid b dest v r, ds sid b dest = .ok (v, r) → ∃ fs, wfLFields fs = true ∧ b = ser (.strct fs) ++ r
+  ∀ sid b dest v r, ds sid b dest = .ok (v, r) → ∃ fs, wfFields fs = true ∧ b = ser (.strct fs) ++ r
 
 theorem decodeStruct_sound_step (total fuel : Nat) (hdt : DtSound (decodeType P S total fuel)) :
     StSound (decodeStruct P S total (fuel + 1)) := by
@@ -217,7 +217,7 @@ theorem decodeType_sound_step (total fuel : Nat) (hdt : DtSound (decodeType P S 
     (hst : StSound (decodeStruct P S total fuel)) : DtSound (decodeType P S total (fuel + 1)) := by
   intro t b dest v r h
   have hfixed : ∀ t : Ty, (if b.length < P.fixedSize t.tt then Outcome.err ErrKind.short else decodeFixed t.tt b) =
-      .ok (v, r) → ∃ tv, wfL tv = true ∧ tv.tag = t.wire ∧ b = ser tv ++ r := by
+      .ok (v, r) → ∃ tv, wf tv = true ∧ tv.tag = t.wire ∧ b = ser tv ++ r := by
     intro t h
     split at h
     · cases h
@@ -231,7 +231,7 @@ theorem decodeType_sound_step (total fuel : Nat) (hdt : DtSound (decodeType P S 
       split at h
       · rename_i hstr
         obtain ⟨s, hs, e⟩ := decodeStr_sound _ _ _ _ _ _ h
-        refine ⟨.str s, by simp [wfL, hs], ?_, e⟩
+        refine ⟨.str s, by simp [wf, hs], ?_, e⟩
         have : (Ty.base k).tt = .string := by simpa using hstr
         simp [TVal.tag, Ty.wire, this, TT.wire]
       · cases h
@@ -246,7 +246,7 @@ theorem decodeType_sound_step (total fuel : Nat) (hdt : DtSound (decodeType P S 
       · exact hfixed _ h
       try simp only at h
       obtain ⟨fs, f1, f2⟩ := hst _ _ _ _ _ h
-      exact ⟨.strct fs, by simp [wfL, f1], rfl, f2⟩
+      exact ⟨.strct fs, by simp [wf, f1], rfl, f2⟩
     | map kt vt =>
       rw [decodeType] at h
       split at h
@@ -293,7 +293,7 @@ theorem decodeType_sound_step (total fuel : Nat) (hdt : DtSound (decodeType P S 
                           (fun bb v r hd => decodeSlot_sound S _ hdt true kt bb _ v r hd)
                           (fun bb v r hd => decodeSlot_sound S _ hdt true vt bb _ v r hd) l r2 [] es r3 hml
                         refine ⟨.map kt.wire vt.wire xs, ?_, rfl, ?_⟩
-                        · simp [wfL, wire_lt128, x1, x2]; omega
+                        · simp [wf, codeOK, wire_lt128, x1, x2]; omega
                         · rw [e1, e2, e3, x3, htt.1, htt.2]
                           simp [ser, x1]
                       · cases h
@@ -311,18 +311,18 @@ theorem decodeType_sound_step (total fuel : Nat) (hdt : DtSound (decodeType P S 
         · cases h
         · rename_i l r1 h32
           obtain ⟨e3, hl⟩ := rd32_inv h32
-          have fin : ∀ xs : List TVal, xs.length = l → wfLList et.wire xs = true → l < 2147483648 →
+          have fin : ∀ xs : List TVal, xs.length = l → wfList et.wire xs = true → l < 2147483648 →
               tp = et.wire → r1 = serList xs ++ r →
-              ∃ tv, wfL tv = true ∧ tv.tag = (Ty.list s et).wire ∧ b = ser tv ++ r := by
+              ∃ tv, wf tv = true ∧ tv.tag = (Ty.list s et).wire ∧ b = ser tv ++ r := by
             intro xs x1 x2 hl31 htp x3
             cases s with
             | true =>
               refine ⟨.set et.wire xs, ?_, rfl, ?_⟩
-              · simp [wfL, wire_lt128, x1, x2]; omega
+              · simp [wf, codeOK, wire_lt128, x1, x2]; omega
               · rw [e1, e3, x3, htp]; simp [ser, x1]
             | false =>
               refine ⟨.list et.wire xs, ?_, rfl, ?_⟩
-              · simp [wfL, wire_lt128, x1, x2]; omega
+              · simp [wf, codeOK, wire_lt128, x1, x2]; omega
               · rw [e1, e3, x3, htp]; simp [ser, x1]
           split at h
           · cases h
@@ -370,7 +370,7 @@ theorem decode_sound_all (total : Nat) : ∀ fuel : Nat,
     (laxly) well-formed struct message whose serialisation is exactly the first `n` bytes -/
 theorem decodeM_sound (sid : Nat) (b : Bytes) (dest v : Val) (n : Nat)
     (h : decodeM P S sid b dest = .ok (v, n)) :
-    ∃ fs trailing, wfLFields fs = true ∧ b = ser (.strct fs) ++ trailing ∧ n = (ser (.strct fs)).length := by
+    ∃ fs trailing, wfFields fs = true ∧ b = ser (.strct fs) ++ trailing ∧ n = (ser (.strct fs)).length := by
   unfold decodeM at h
   split at h
   · rename_i v0 r hd
